@@ -11,6 +11,7 @@ EXPLANATION = (
     "set_len(recorded length + positive chunk) before resize to the same length, never truncating; reads are "
     "rejected iff offset >= end marker and delineate is bounds-checked; the id->offset entry is written in the "
     "same transaction as the other indexes. Byte identity over all histories and mmap semantics are not decided.")
+EXPLANATION += " Also decided: the length remembered for the grow arithmetic comes from the file's metadata; no function of pocket-db writes to a file through a file handle; delineate rejects exactly the inputs shorter than 152 bytes (the smallest event) or than their own recorded length."
 ASSUMPTIONS = ["the kernel's mmap keeps file contents coherent with the mapping"]
 
 
